@@ -2,6 +2,7 @@ package h
 
 import (
 	"context"
+	"errors"
 	"sync"
 	"time"
 
@@ -22,6 +23,8 @@ type CancelDS struct {
 	fire      func()
 	Triggered bool
 	Reads     int
+	open      int
+	opened    int
 	// Jitter, when set, delays every read event by a pseudo-random duration so that the
 	// completion order of concurrent sub-problems varies from request to request.
 	Jitter func() time.Duration
@@ -70,16 +73,58 @@ func (d *CancelDS) hit() {
 
 type cancelIter struct {
 	storage.TupleIterator
-	d *CancelDS
+	d        *CancelDS
+	released bool // exhausted, failed or stopped (guarded by d.mu)
+}
+
+// census: an iterator counts as open until it is stopped or has reported done
+func (d *CancelDS) wrap(it storage.TupleIterator) storage.TupleIterator {
+	d.mu.Lock()
+	d.open++
+	d.opened++
+	d.mu.Unlock()
+	return &cancelIter{TupleIterator: it, d: d}
+}
+func (i *cancelIter) release() {
+	i.d.mu.Lock()
+	if !i.released {
+		i.released = true
+		i.d.open--
+	}
+	i.d.mu.Unlock()
+}
+
+// OpenIterators returns the number of iterators handed out since ResetCensus that are still open.
+func (d *CancelDS) OpenIterators() (open, opened int) {
+	d.mu.Lock()
+	defer d.mu.Unlock()
+	return d.open, d.opened
+}
+func (d *CancelDS) ResetCensus() {
+	d.mu.Lock()
+	d.open, d.opened = 0, 0
+	d.mu.Unlock()
 }
 
 func (i *cancelIter) Next(ctx context.Context) (*openfgav1.Tuple, error) {
 	i.d.hit()
-	return i.TupleIterator.Next(ctx)
+	t, err := i.TupleIterator.Next(ctx)
+	if errors.Is(err, storage.ErrIteratorDone) {
+		i.release()
+	}
+	return t, err
 }
 func (i *cancelIter) Head(ctx context.Context) (*openfgav1.Tuple, error) {
 	i.d.hit()
-	return i.TupleIterator.Head(ctx)
+	t, err := i.TupleIterator.Head(ctx)
+	if errors.Is(err, storage.ErrIteratorDone) {
+		i.release()
+	}
+	return t, err
+}
+func (i *cancelIter) Stop() {
+	i.release()
+	i.TupleIterator.Stop()
 }
 
 func (d *CancelDS) Read(ctx context.Context, store string, f storage.ReadFilter, o storage.ReadOptions) (storage.TupleIterator, error) {
@@ -88,7 +133,7 @@ func (d *CancelDS) Read(ctx context.Context, store string, f storage.ReadFilter,
 	if err != nil {
 		return nil, err
 	}
-	return &cancelIter{it, d}, nil
+	return d.wrap(it), nil
 }
 
 func (d *CancelDS) ReadUserTuple(ctx context.Context, store string, f storage.ReadUserTupleFilter, o storage.ReadUserTupleOptions) (*openfgav1.Tuple, error) {
@@ -102,7 +147,7 @@ func (d *CancelDS) ReadUsersetTuples(ctx context.Context, store string, f storag
 	if err != nil {
 		return nil, err
 	}
-	return &cancelIter{it, d}, nil
+	return d.wrap(it), nil
 }
 
 func (d *CancelDS) ReadStartingWithUser(ctx context.Context, store string, f storage.ReadStartingWithUserFilter, o storage.ReadStartingWithUserOptions) (storage.TupleIterator, error) {
@@ -111,7 +156,7 @@ func (d *CancelDS) ReadStartingWithUser(ctx context.Context, store string, f sto
 	if err != nil {
 		return nil, err
 	}
-	return &cancelIter{it, d}, nil
+	return d.wrap(it), nil
 }
 
 // NewVariantsDS is NewVariants over a caller-supplied datastore.
